@@ -354,12 +354,16 @@ class Node:
                 return default is None
 
             if value_node.tag == 'tag:yaml.org,2002:int':
+                if isinstance(default, str):
+                    return False
                 try:
                     return bool(Node(value_node).get_value() == int(default))
                 except (TypeError, ValueError):
                     return False
 
             if value_node.tag == 'tag:yaml.org,2002:float':
+                if isinstance(default, str):
+                    return False
                 try:
                     return bool(
                             Node(value_node).get_value() == float(default))
